@@ -32,7 +32,9 @@ CONSTANTS Vers,        \* protocol versions of the frame headers (subset of 1..4
                        \* (magnitudes because a TLC configuration file has no negative numbers)
           MinFrames,
           MaxFrames,   \* Init picks any sequence of MinFrames..MaxFrames shapes
-          AbsHdr       \* header length used for ver >= 5 (Segments.tla scales it down; 9 in reality)
+          AbsHdr,      \* header length used for ver >= 5 (Segments.tla scales it down; 9 in reality)
+          Watchers,    \* callbacks registered in _push_watchers for the event type of the pushes (a set, any order)
+          Raising      \* the ones among them that raise when called (handle_pushed logs and goes on)
 
 VARIABLES frames,      \* what the server sends: Seq(Kinds)
           wire,        \* tagged bytes still in the network (not yet handed to the connection)
@@ -40,10 +42,11 @@ VARIABLES frames,      \* what the server sends: Seq(Kinds)
           buf,         \* _io_buffer / cql frame buffer: bytes read but not yet consumed
           cur,         \* _current_frame: index of the frame whose header has been parsed, 0 = None
           delivered,   \* invocations of request handlers, in order
-          pushed,      \* invocations of push watchers, in order
+          pushed,      \* the pushes handed to the watchers (handle_pushed), in order
+          wseen,       \* per registered watcher: the pushes (frame indices) it was called with, in order
           order,       \* frame indices in the order process_msg saw them
           desync       \* a header was parsed from bytes that are not a header
-fvars == <<frames, wire, sent, buf, cur, delivered, pushed, order, desync>>
+fvars == <<frames, wire, sent, buf, cur, delivered, pushed, wseen, order, desync>>
 
 (* frame shapes: neg = server push; sid = the (negative) stream id it carries, 0 for a response, *)
 (* whose stream id is the one of the request it answers (StreamOf)                              *)
@@ -73,9 +76,10 @@ FrameSeqs == UNION {[1..n -> Kinds] : n \in MinFrames..MaxFrames}
 
 (* ---- receiver state as a record, so that Segments.tla can feed the same     *)
 (* ---- frame layer with segment payloads                                      *)
-FState == [buf |-> buf, cur |-> cur, delivered |-> delivered, pushed |-> pushed,
+FState == [buf |-> buf, cur |-> cur, delivered |-> delivered, pushed |-> pushed, wseen |-> wseen,
            order |-> order, desync |-> desync]
-FInit  == [buf |-> <<>>, cur |-> 0, delivered |-> <<>>, pushed |-> <<>>, order |-> <<>>, desync |-> FALSE]
+FInit  == [buf |-> <<>>, cur |-> 0, delivered |-> <<>>, pushed |-> <<>>, wseen |-> [w \in Watchers |-> <<>>],
+           order |-> <<>>, desync |-> FALSE]
 
 (* _read_frame_header: the first buffered byte is taken as the version byte; with a whole header *)
 (* in the buffer _current_frame is set                                                          *)
@@ -104,7 +108,10 @@ Deliver(fs, r) ==
         rest == SubSeq(r.buf, e + 1, Len(r.buf)) IN
     [r EXCEPT !.buf = rest, !.cur = 0, !.order = Append(@, i),
               !.delivered = IF fs[i].neg THEN @ ELSE Append(@, rec),
-              !.pushed = IF fs[i].neg THEN Append(@, rec) ELSE @]
+              !.pushed = IF fs[i].neg THEN Append(@, rec) ELSE @,
+              (* handle_pushed: EVERY registered watcher is called, one by one; one that raises (Raising) has *)
+              (* been called too, and does not keep the others from being called                              *)
+              !.wseen = IF fs[i].neg THEN [w \in Watchers |-> Append(@[w], i)] ELSE @]
 
 (* the loop of process_io_buffer (without checksumming): parse, deliver, again, until something is incomplete *)
 RECURSIVE Drain(_, _)
@@ -116,11 +123,12 @@ Feed(fs, r, chunk) == Drain(fs, [r EXCEPT !.buf = @ \o chunk])
 
 SetF(r) ==
     /\ buf' = r.buf /\ cur' = r.cur /\ delivered' = r.delivered
-    /\ pushed' = r.pushed /\ order' = r.order /\ desync' = r.desync
+    /\ pushed' = r.pushed /\ wseen' = r.wseen /\ order' = r.order /\ desync' = r.desync
 
 InitWith(fs) ==
     /\ frames = fs /\ sent = 0 /\ wire = WireOf(fs, Len(fs))
     /\ buf = <<>> /\ cur = 0 /\ delivered = <<>> /\ pushed = <<>> /\ order = <<>> /\ desync = FALSE
+    /\ wseen = [w \in Watchers |-> <<>>]
 
 Init == \E fs \in FrameSeqs : InitWith(fs)
 
@@ -163,6 +171,13 @@ Inv_Exact ==
     /\ \A j \in 1..Len(pushed) :
           LET d == pushed[j] IN d.exact /\ d.len = frames[d.idx].blen /\ d.stream < 0 /\ d.stream = frames[d.idx].sid
 
+(* server-pushed events go to the registered event watchers: each of them, whatever the others do, *)
+(* is called with every push exactly once and in order                                             *)
+Inv_AllWatchers ==
+    LET push == SelectSeq(order, LAMBDA i : frames[i].neg) IN
+    /\ Raising \subseteq Watchers
+    /\ \A w \in Watchers : wseen[w] = push
+
 (* nothing is lost or delivered in part: the buffer is exactly the unconsumed tail *)
 Inv_NoPartial ==
     /\ sent = SumLen(frames, NDone) + Len(buf)
@@ -185,14 +200,16 @@ Witness_Pushed        == ~(Len(pushed) > 0 /\ Len(delivered) > 0)
 Witness_AllDone       == ~(sent = WireLen /\ NDone = N /\ N >= MinFrames)
 Witness_PushOtherId   == ~(\E j \in 1..Len(pushed) : pushed[j].stream < -1)                       \* a push not on stream -1
 Witness_PushMinId     == ~(\E j \in 1..Len(pushed) : pushed[j].stream = MinSid(frames[pushed[j].idx].ver))
+Witness_RaisingWatcher == ~(\E b \in Raising, g \in Watchers \ Raising : Len(wseen[b]) > 0 /\ Len(wseen[g]) > 0)
 
 (* One TLC run (-workers 1, CONSTRAINT WitnessScan) reports every witness whose negation is reached, *)
 (* each once: <<"WITNESS", name>>.                                                                   *)
 FWitnessNames == <<"Witness_PartialHeader", "Witness_PartialBody", "Witness_Pushed", "Witness_AllDone",
-                   "Witness_PushOtherId", "Witness_PushMinId">>
+                   "Witness_PushOtherId", "Witness_PushMinId", "Witness_RaisingWatcher">>
 FWitnessReached(i) == CASE i = 1 -> ~Witness_PartialHeader [] i = 2 -> ~Witness_PartialBody
                         [] i = 3 -> ~Witness_Pushed [] i = 4 -> ~Witness_AllDone
                         [] i = 5 -> ~Witness_PushOtherId [] i = 6 -> ~Witness_PushMinId
+                        [] i = 7 -> ~Witness_RaisingWatcher
 ASSUME \A i \in 1..20 : TLCSet(100 + i, 0)
 WitnessScan == \A i \in 1..Len(FWitnessNames) :
     (FWitnessReached(i) /\ TLCGet(100 + i) = 0) => (TLCSet(100 + i, 1) /\ PrintT(<<"WITNESS", FWitnessNames[i]>>))
